@@ -211,6 +211,14 @@ pub fn run(ctx: &Ctx, rec: &mut Rec) {
                         };
                         ks.push(k);
                     }
+                    // planted repetitions: the same element twice or more (also as the other coset member / rescaled)
+                    if size >= 2 && (rep + size) % 2 == 0 {
+                        let src = pts[0].clone();
+                        pts[size - 1] = if rep % 2 == 0 { src.clone() } else { SE { l: from_pt_scaled(c, &c.torque(&src.m), &b(3 + rep as u64)), m: c.torque(&src.m), class: "planted other-rep" } };
+                        if size >= 4 {
+                            pts[size / 2] = src;
+                        }
+                    }
                     let mut want = c.identity();
                     for (p, k) in pts.iter().zip(ks.iter()) {
                         want = c.add(&want, &c.mul(k, &p.m));
